@@ -52,9 +52,16 @@ class Ob:
 
 
 def pick(pool, i: int):
-    """Return pool[i] by explicit branching so that a symbolic index forks into concrete values
-    (a symbolic subscript would yield a symbolic element and drag the solver through all code)."""
-    for j, item in enumerate(pool):
-        if i == j:
-            return item
-    raise IndexError(i)
+    """Return pool[i] by explicit (solver-checked) branching so that a symbolic index forks into
+    concrete values (a symbolic subscript would yield a symbolic element and drag the solver through
+    all downstream code).  Bisection keeps the number of forks per path logarithmic."""
+    lo, hi = 0, len(pool)
+    if not 0 <= i < hi:
+        raise IndexError('pick index out of range')
+    while hi - lo > 1:
+        mid = (lo + hi) // 2
+        if i < mid:
+            hi = mid
+        else:
+            lo = mid
+    return pool[lo]
